@@ -10,6 +10,9 @@ NAMES = ["lib", "library", "pub_sub", "ai"]
 FILE_BASES = ["lib", "types", "service", "foo.bar", "import", "metadata", "class", "common_types", "v1_api", "request"]
 
 
+COLLIDING = [("common_types", "common.types"), ("foo.bar", "foo_bar"), ("import", "import_"), ("class_", "class"), ("a_b.c", "a.b_c"), ("metadata", "metadata_")]
+
+
 def gen_case(r: apigen.Rng, idx: int):
     ns = [r.pick(NS_POOL) for _ in range(r.randint(0, 3))]
     name = r.pick(NAMES)
@@ -17,10 +20,15 @@ def gen_case(r: apigen.Rng, idx: int):
     pkg = ".".join(ns + [name] + ([ver] if ver else []))
     nfiles = r.randint(1, 3) if ver else 1          # unversioned packages must share one proto package
     bases = r.sample(FILE_BASES, nfiles)
+    if nfiles >= 2 and r.maybe(0.35):
+        # two target files whose names sanitise to the SAME module name (either order): both must still get a types module
+        pair = list(r.pick(COLLIDING))
+        if r.maybe(): pair.reverse()
+        bases = pair + [b for b in bases if b not in pair][:nfiles - 2]
     sub = r.maybe(0.3) and ver != ""
     case = {"pkg": pkg, "ns": ns, "name": name, "version": ver, "files": [], "deps": r.maybe(0.5), "sub": None}
     for i, b in enumerate(bases):
-        case["files"].append({"base": b, "pkg": pkg, "messages": r.randint(0 if i else 1, 2), "enum": r.maybe(0.3), "services": 0})
+        case["files"].append({"base": b, "pkg": pkg, "messages": r.randint(0 if (i and not any(b in c for c in COLLIDING)) else 1, 2), "enum": r.maybe(0.3), "services": 0})
     case["files"][0]["services"] = r.randint(1, 2)
     if len(case["files"]) > 1 and r.maybe(0.3):
         case["files"][1]["services"] = 1
@@ -128,6 +136,12 @@ def oracle(ctx, case, res, files, targets, payload):
     nonempty_types = sum(1 for fd in case["files"] if fd["messages"] or fd["enum"] or fd["services"])
     if not (nonempty_types <= len(ntypes) <= want_types):
         ctx.fail("types-module-count", f"{len(ntypes)} types modules for {want_types} target protos ({nonempty_types} non-empty): {ntypes}", payload)
+    # every message of every target file is a class of some emitted types module
+    tcontent = "\n".join(f.content for f in res.file if f.name in ntypes)
+    total_msgs = sum(fd["messages"] for fd in case["files"])
+    lost = [f"Msg{k}" for k in range(total_msgs) if f"class Msg{k}(" not in tcontent]
+    if lost:
+        ctx.fail("message-not-emitted", f"messages {lost} of target files are in no types module ({[n.rsplit('/', 1)[1] for n in ntypes]})", payload)
     svc_names = []
     for i, fd in enumerate(case["files"]):
         for s in range(fd["services"]):
@@ -309,6 +323,12 @@ def run_case(ctx, case, label):
 
 
 CORPUS = [
+    # two target files whose names sanitise to one module name, the dotted one second
+    {"pkg": "acme.lib.v1", "ns": ["acme"], "name": "lib", "version": "v1", "deps": False, "sub": None, "override_name": None, "override_ns": None,
+     "files": [{"base": "lib", "pkg": "acme.lib.v1", "messages": 1, "enum": False, "services": 1},
+               {"base": "shelf_types", "pkg": "acme.lib.v1", "messages": 1, "enum": False, "services": 0},
+               {"base": "shelf.types", "pkg": "acme.lib.v1", "messages": 1, "enum": True, "services": 0}],
+     "opts": ["transport=grpc", "autogen-snippets=false"], "unknown": ["zzz=1"]},
     # §9-F13: an option value containing two '='
     {"pkg": "acme.lib.v1", "ns": ["acme"], "name": "lib", "version": "v1", "deps": False, "sub": None, "override_name": None, "override_ns": None,
      "files": [{"base": "lib", "pkg": "acme.lib.v1", "messages": 1, "enum": False, "services": 1}],
